@@ -110,6 +110,10 @@ def _build(cfg, w, nan=False, fortran=False):
     from flodym.stocks import SimpleFlowDrivenStock
 
     dims = {l: Dimension(name={"t": "Time", "a": "Alpha", "b": "Beta"}[l], letter=l, items=[f"{l}{i + 1}" for i in range(LENS[l])]) for l in "tab"}
+    if cfg.get("falsy_items"):
+        # labels that are falsy in Python: periods counted from 0, an empty string
+        dims["t"] = Dimension(name="Time", letter="t", items=list(range(LENS["t"])), dtype=int)
+        dims["b"] = Dimension(name="Beta", letter="b", items=[""] + [f"b{i + 1}" for i in range(1, LENS["b"])])
     allset = DimensionSet(dim_list=[dims[l] for l in "tab"])
     ids = list(range(len(cfg["procs"])))
     if cfg.get("permuted_ids") and len(ids) > 2:
@@ -118,6 +122,7 @@ def _build(cfg, w, nan=False, fortran=False):
     flows, F = {}, {}
     for i, ((a, b), d) in enumerate(zip(cfg["flows"], cfg["fdims"])):
         name = f"{a} => {b} #{i}" if not cfg.get("short_names") else f"{a} => {b}"
+        name = cfg.get("name_prefix", "") + name
         shape = tuple(LENS[l] for l in d)
         V = w.arr(f"f{i}", shape)
         if nan:
@@ -134,7 +139,7 @@ def _build(cfg, w, nan=False, fortran=False):
         ds = DimensionSet(dim_list=[dims[l] for l in d])
         shape = ds.shape
         I, O, ST = w.arr(f"s{j}_in", shape), w.arr(f"s{j}_out", shape), w.arr(f"s{j}_stock", shape)
-        name = f"stock{j}"
+        name = cfg.get("name_prefix", "") + f"stock{j}"
         stocks[name] = SimpleFlowDrivenStock(dims=ds, inflow=StockArray(dims=ds, values=I.copy()), outflow=StockArray(dims=ds, values=O.copy()),
                                              stock=StockArray(dims=ds, values=ST.copy()), name=name, process=procs[sp] if sp else None)
         S[name] = (sp, d, I, O, ST)
@@ -172,11 +177,13 @@ def _balances(cfg, w, F, S):
 
 
 def _maxabs(w, vals):
+    """the largest magnitude among the entries that are numbers (NaN entries are reported by the checks, they do not
+    scale the tolerance); 0 when there is none"""
     m = None
     for v in vals:
-        a = w.abs(v)
+        a = w.ite(w.isnan(v), 0, w.abs(v))
         m = a if m is None else w.max(m, a)
-    return m
+    return 0 if m is None else m
 
 
 def _any(w, conds):
